@@ -674,3 +674,103 @@ Proof.
     by (destruct Ho as [-> | ->]; reflexivity).
   rewrite E in H. exact (table_remove_unlisted _ id I1 H).
 Qed.
+
+(* ---- reading [misranked = false] ---- *)
+Lemma not_misranked : forall {F} (S : num F) (x y : @ent F), misranked S x y = false ->
+  (feq S (e_trust x) (e_trust y) = true -> e_dist x <= e_dist y) /\
+  (e_dist x = e_dist y -> ltb S (e_trust x) (e_trust y) = false).
+Proof.
+  intros F S x y H. unfold misranked in H. apply orb_false_iff in H. destruct H as [H1 H2]. split.
+  - intro E. rewrite E in H1. cbn [andb] in H1. apply N.ltb_ge in H1. exact H1.
+  - intro E. apply N.eqb_eq in E. rewrite E in H2. exact H2.
+Qed.
+
+(* ranking theorems in that reading *)
+Section Ranking.
+  Context {F : Type}.
+  Variable S : num F.
+  Hypothesis L : laws S.
+  Variable c : @scfg F.
+  Variable key : N.
+  Variable trust_of : N -> F.
+  Hypothesis Kk : key_ok key.
+
+  Lemma rank_distance : forall cands l1 x l2 y l3, Forall (fun x => key_ok (n_id x)) cands ->
+    rank S c key trust_of cands = l1 ++ x :: l2 ++ y :: l3 ->
+    feq S (e_trust x) (e_trust y) = true -> e_dist x <= e_dist y.
+  Proof. intros cands l1 x l2 y l3 K E. exact (proj1 (not_misranked S x y (rank_no_misrank S L c key trust_of Kk cands l1 x l2 y l3 K E))). Qed.
+
+  Lemma rank_trust : forall cands l1 x l2 y l3, Forall (fun x => key_ok (n_id x)) cands ->
+    rank S c key trust_of cands = l1 ++ x :: l2 ++ y :: l3 ->
+    e_dist x = e_dist y -> ltb S (e_trust x) (e_trust y) = false.
+  Proof. intros cands l1 x l2 y l3 K E. exact (proj2 (not_misranked S x y (rank_no_misrank S L c key trust_of Kk cands l1 x l2 y l3 K E))). Qed.
+
+  (* the cut: x selected, y eligible and left out *)
+  Lemma cut_distance_trust : forall cands count x y, Forall (fun x => key_ok (n_id x)) cands ->
+    In x (firstn (N.to_nat count) (rank S c key trust_of cands)) ->
+    In y (skipn (N.to_nat count) (rank S c key trust_of cands)) ->
+    (feq S (e_trust x) (e_trust y) = true -> e_dist x <= e_dist y) /\
+    (e_dist x = e_dist y -> ltb S (e_trust x) (e_trust y) = false).
+  Proof. intros cands count x y K Hx Hy. exact (not_misranked S x y (rank_cut S L c key trust_of Kk cands _ x y K Hx Hy)). Qed.
+
+  (* a raw trust below a positive floor, or NaN, is never selected under exclusion *)
+  Lemma floor_raw : forall cands count x, c_excl c = true -> ltb S (zero S) (c_min c) = true ->
+    In x (select S c key trust_of cands count) ->
+    ltb S (trust_of (n_id x)) (c_min c) = false /\ leb S (trust_of (n_id x)) (trust_of (n_id x)) = true.
+  Proof.
+    intros cands count x Ex Pm H. pose proof (select_floor S c key trust_of cands count x Ex H) as Fl.
+    split.
+    - destruct (ltb S (trust_of (n_id x)) (c_min c)) eqn:E; [|reflexivity].
+      rewrite (unit_below S L _ _ Pm (or_introl E)) in Fl. discriminate.
+    - destruct (leb S (trust_of (n_id x)) (trust_of (n_id x))) eqn:E; [reflexivity|].
+      rewrite (unit_below S L _ _ Pm (or_intror E)) in Fl. discriminate.
+  Qed.
+End Ranking.
+
+(* removed ids are in no answer *)
+Lemma removed_in_no_answer : forall local ops1 o ops2 id, key_ok local ->
+  Forall op_ok (ops1 ++ o :: ops2) -> (o = Fail id \/ o = Evict id) ->
+  forallb (fun o => negb (offers id o)) ops2 = true ->
+  let t := fst (run (start local) (ops1 ++ o :: ops2)) in
+  ~ In id (ids (all_nodes t)) /\
+  forall key count, key_ok key ->
+    ~ In id (ids (closest t key count)) /\
+    ~ In id (ids (handle_find_node t key count)) /\
+    ~ In id (ids (handle_find_value t key)) /\
+    forall F (S : num F) sel trust_of storage, ~ In id (ids (engine_select S sel trust_of storage t key count)).
+Proof.
+  intros local ops1 o ops2 id Kl Fa Ho Off t.
+  destruct (removed_stays_absent local ops1 o ops2 id Kl Fa Ho Off) as [It Ab]. fold t in It, Ab.
+  split; [exact Ab|]. intros key count Kk.
+  assert (C : forall n, ~ In id (ids (closest t key n))).
+  { intros n H. apply in_ids_inv in H. destruct H as [x [Hx E]]. apply Ab. rewrite <- E.
+    apply in_ids. eapply closest_sub; eauto. }
+  split; [apply C|]. split; [apply C|]. split; [apply C|].
+  intros F S sel trust_of storage H. apply in_ids_inv in H. destruct H as [x [Hx E]]. apply Ab. rewrite <- E.
+  apply in_ids. exact (proj1 (engine_select_wf S sel trust_of storage t key count It Kk) x Hx).
+Qed.
+
+(* ---- the exact-arithmetic instance, in the vocabulary of Q ---- *)
+Lemma storage_floor_exact : forall key (trust_of : N -> Q) cands count x,
+  In x (select qnum (for_storage (fun q => q)) key trust_of cands count) ->
+  (SEL_STORAGE_MIN <= unit qnum (trust_of (n_id x)))%Q /\ (1 # 5 <= trust_of (n_id x))%Q.
+Proof.
+  intros key trust_of cands count x H. set (c := for_storage (fun q : Q => q)) in *.
+  pose proof (select_floor qnum c key trust_of cands count x eq_refl H) as A.
+  destruct (floor_raw qnum q_laws c key trust_of cands count x eq_refl eq_refl H) as [B _].
+  cbn [ltb qnum c_min c for_storage] in A, B. apply negb_false_iff in A, B. apply Qle_bool_iff in A, B.
+  split; assumption.
+Qed.
+
+Lemma rank_exact : forall (c : scfg) key trust_of cands l1 x l2 y l3,
+  key_ok key -> Forall (fun x => key_ok (n_id x)) cands ->
+  rank qnum c key trust_of cands = l1 ++ x :: l2 ++ y :: l3 ->
+  ((e_trust x == e_trust y)%Q -> e_dist x <= e_dist y) /\
+  (e_dist x = e_dist y -> (e_trust y <= e_trust x)%Q).
+Proof.
+  intros c key trust_of cands l1 x l2 y l3 Kk K E. split.
+  - intro H. apply (rank_distance qnum q_laws c key trust_of Kk cands l1 x l2 y l3 K E).
+    unfold feq. cbn [leb qnum]. apply andb_true_iff. split; apply Qle_bool_iff; rewrite H; apply Qle_refl.
+  - intro H. pose proof (rank_trust qnum q_laws c key trust_of Kk cands l1 x l2 y l3 K E H) as A.
+    cbn [ltb qnum] in A. apply negb_false_iff in A. apply Qle_bool_iff in A. exact A.
+Qed.
